@@ -723,14 +723,7 @@ fn build_inner(op: &Op, h: &Handles) -> Option<BuiltEntry> {
                     1 => rqsc::ResourceID::MemoryAffinityStructure(rqsc::MemoryAffinityStructureResource::new(o.arg(3) as u32, o.arg(4))),
                     2 => rqsc::ResourceID::ACPIDevice(rqsc::ACPIDeviceResource::new(o.arg(3), o.arg(4) as u32)),
                     3 => rqsc::ResourceID::PCIDevice(rqsc::PCIDeviceResource::new(o.arg(3) as u32)),
-                    _ => {
-                        // Resource ID 1 (8) + Resource ID 2 (4) are mandatory: at least 12 bytes
-                        let mut v = o.b.clone();
-                        while v.len() < 12 {
-                            v.push(0);
-                        }
-                        rqsc::ResourceID::VendorSpecific(0x80 | (o.arg(3) as u8), v)
-                    }
+                    _ => rqsc::ResourceID::VendorSpecific(0x80 | (o.arg(3) as u8), o.b.clone()),
                 };
                 c.add_resource(rqsc::ResourceStructure::new(rt, o.arg(1) as u16, id));
                 subn += 1;
